@@ -8,7 +8,7 @@ TEMPLATE = common.HEAD + common.STR_SHIMS + common.TOKEN_TYPES + r'''
 //@TYPE CommandLine
 //@TYPE CommandResult
 //@TYPE Job
-pub struct Shell { pub jobs: HashMap<i32, Job>, pub previous_status: i32 }
+pub struct Shell { pub jobs: HashMap<i32, Job>, pub previous_status: i32, pub exit_on_error: bool }
 impl CommandResult {
 //@FN CommandResult::new
 }
@@ -56,6 +56,22 @@ pub fn run_script(sh: &mut Shell, args: &Vec<String>, Ghost(words): Ghost<Seq<St
         args@ == words //@L C15.source.the_script_gets_the_words_of_the_command_as_its_arguments
     ensures final(sl).ran == Some(r as int)
 { unimplemented!() }
+// ---- set (C15: "after `set -e` the first failing command ends the script"): the builtin turns the flag on exactly when the option parser reports -e, and never turns it off ----
+pub struct OptMain { pub exit_on_error: bool }
+pub struct VxOptErr { pub e: i32 }
+// structopt's parser over the words of the command (outside the verifier): the options it reports, or an error / usage text
+pub uninterp spec fn spec_set_opts(args: Seq<String>) -> Option<OptMain>;
+#[verifier::external_body]
+pub fn vx_set_opts(args: Vec<String>) -> (r: Result<OptMain, VxOptErr>)
+    ensures match r { Ok(o) => spec_set_opts(args@) == Some(o), Err(_) => spec_set_opts(args@).is_none() }
+{ unimplemented!() }
+#[verifier::external_body]
+pub fn vx_opt_err_text(e: &VxOptErr) -> (r: String) { unimplemented!() }
+#[verifier::external_body]
+pub fn print_stdout_with_capture(info: &str, cr: &mut CommandResult, cl: &CommandLine, cmd: &Command, capture: bool)
+    ensures final(cr).status == old(cr).status
+{ unimplemented!() }
+//@FN set_run
 //@FN exit_run
 //@FN source_run
 ''' + common.TAIL
@@ -93,12 +109,23 @@ source_run = Fn('src/builtins/source.rs', 'run', rename='source_run', ret='r',
     ],
 )
 
+set_run = Fn('src/builtins/set.rs', 'run', rename='set_run', ret='r', props=('C15',),
+    pre_rewrites=[Rw('parsers::parser_line::tokens_to_args(tokens)', 'tokens_to_args(tokens)', rule='R0'),
+                  Rw('let opt = OptMain::from_iter_safe(args);', 'let opt = vx_set_opts(args);', rule='R10', why='structopt option parser: opaque (which options the words spell)'),
+                  Rw('let info = format!("{}", e);', 'let info = vx_opt_err_text(&e);', rule='R4', why='usage / error text (opaque)'),
+                  Rw(r'let show_usage = args\.len\(\) > 1 && \(args\[1\] == "-h" \|\| args\[1\] == "--help"\);', 'let show_usage = args.len() > 1 && (vx_streq(&args[1], &"-h") || vx_streq(&args[1], &"--help"));', regex=True, rule='R5', required=False)],
+    ensures=[('C15.set.the_flag_is_on_after_set_e_with_status_0_and_set_never_turns_it_off',
+              'match spec_set_opts(spec_args(cmd.tokens@)) { Some(o) => if o.exit_on_error { final(sh).exit_on_error && r.status == 0 } else { final(sh).exit_on_error == old(sh).exit_on_error }, '
+              'None => final(sh).exit_on_error == old(sh).exit_on_error }'),
+             ('C15.set.nothing_else_of_the_shell_changes', 'final(sh).jobs == old(sh).jobs && final(sh).previous_status == old(sh).previous_status')],
+)
 UNIT = Unit('U-BSH', TEMPLATE,
-            fns=[exit_run, source_run, Fn('src/types.rs', 'new', impl='CommandResult')],
+            fns=[set_run, exit_run, source_run, Fn('src/types.rs', 'new', impl='CommandResult', ret='r', ensures=[('C15.cr.new', 'r.status == 0')])],
             types=[TypeItem('src/types.rs', 'struct', 'Command'), TypeItem('src/types.rs', 'struct', 'CommandLine'), TypeItem('src/types.rs', 'struct', 'CommandResult'),
                    TypeItem('src/types.rs', 'struct', 'Job')],
             props=('C15', 'C05'))
 TRUSTED = common.TRUSTED_STR + [
+    'set: the structopt option parser is opaque (which options the words of the command spell is uninterpreted); the builtin turns exit_on_error on exactly when the parser reports -e',
     'std::process::exit ends the process with the status given and never returns (shim vx_process_exit, `ensures false`)',
     'str::parse::<i32> is uninterpreted: which texts are numbers, and which number, is exercised by the bounded cases only',
     'scripting::run_script and parser_line::tokens_to_args are external here (run_script is under contract in U-SCRIPT from the text of the file on -- locating and reading the file is an opaque shim there; tokens_to_args has its contract in U-TOK)',
